@@ -81,12 +81,13 @@ Record outcome := mkOutcome {
   o_stale : list key              (* stale paths the ratchet reported or removed *)
 }.
 
-(* load_baseline / load_baseline_optional (runner.rs:166-172): None = run without a baseline;
+(* load_baseline / load_baseline_optional (runner.rs:166-172), Baseline::load re-keying the
+   entries (rekey): None = run without a baseline;
    Some None = error (file named by --baseline is missing and no update was requested) *)
 Definition load_for_run (fl : flags) (disk : option baseline) : option (option baseline) :=
   if f_baseline fl then
     match disk, f_update fl with
-    | Some b, _ => Some (Some b)
+    | Some b, _ => Some (Some (rekey b))
     | None, Some _ => Some None
     | None, None => None
     end
@@ -111,7 +112,7 @@ Definition check_step (fl : flags) (results : list result) (dirs : list key)
     let disk1 := if ro_saved ro then ro_baseline ro else disk in
     (* 7.0.2 update, from the (possibly tightened) loaded baseline; when none was loaded the
        file about to be replaced is read (fixes/D30-update-reads-target.patch) *)
-    let existing := match ro_baseline ro with Some b => Some b | None => disk1 end in
+    let existing := match ro_baseline ro with Some b => Some b | None => view disk1 end in
     let disk2 := match f_update fl with
                  | Some mode => Some (update_baseline_from_results results1 mode existing)
                  | None => disk1 end in
